@@ -33,12 +33,14 @@ def segments (ring : List P) : List (P × P) :=
     | some first, some last => pairs ring ++ (if last ≠ first then [(last, first)] else [])
     | _, _ => []
 
+/-- `w` lies between `u` and `v` (ends included, either order) -/
+def between (u v w : Rat) : Bool :=
+  (decide (u ≤ w) && decide (w ≤ v)) || (decide (v ≤ w) && decide (w ≤ u))
+
 /-- `p` lies on the closed segment `ab`: inside its closed box and collinear with it -/
 def onSeg (p : P) (s : P × P) : Bool :=
-  let a := s.1; let b := s.2
-  decide (min a.x b.x ≤ p.x) && decide (p.x ≤ max a.x b.x) &&
-  decide (min a.y b.y ≤ p.y) && decide (p.y ≤ max a.y b.y) &&
-  decide ((b.x - a.x) * (p.y - a.y) = (b.y - a.y) * (p.x - a.x))
+  between s.1.x s.2.x p.x && between s.1.y s.2.y p.y &&
+  decide ((s.2.x - s.1.x) * (p.y - s.1.y) = (s.2.y - s.1.y) * (p.x - s.1.x))
 
 /-- half-open crossing rule: the segment spans the height of `p` (lower end included, upper end
 excluded — so horizontal segments never count and a vertex counts for exactly the segments that go
